@@ -285,9 +285,9 @@ def init_qq_obl(timeout=600, may_fail=False, kf=None):
                funcs=['cr.c:_soxr_init', 'cr.c:_soxr_close', 'fifo.h:fifo_create', 'fifo.h:fifo_reserve'])
 
 
-def dft_obl(L=1, M=1, dbl=0, simd=0, dftlen=32, timeout=600, tiers=('quick', 'thorough'), fdm=0):
-    return Obl(name='dft_stage_L%d_M%d%s_%s%s_n%d' % (L, M, 'fd' if fdm else '', 'd' if dbl else 'f', 's' if simd else '', dftlen), src='dft_step.c',
-               defs=['-DVF_FDM=%d' % fdm, '-DVF_L=%d' % L, '-DVF_M=%d' % M, '-DVF_DBL=%d' % dbl, '-DVF_SIMD=%d' % simd, '-DVF_DFTLEN=%d' % dftlen], unwind=dftlen + 4,
+def dft_obl(L=1, M=1, dbl=0, simd=0, dftlen=32, timeout=600, tiers=('quick', 'thorough'), fdm=0, bigocc=0):
+    return Obl(name='dft_stage_L%d_M%d%s_%s%s_n%d%s' % (L, M, 'fd' if fdm else '', 'd' if dbl else 'f', 's' if simd else '', dftlen, '_bigfifo' if bigocc else ''), src='dft_step.c', checks='full',
+               defs=(['-DVF_BIGOCC'] if bigocc else []) + ['-DVF_FDM=%d' % fdm, '-DVF_L=%d' % L, '-DVF_M=%d' % M, '-DVF_DBL=%d' % dbl, '-DVF_SIMD=%d' % simd, '-DVF_DFTLEN=%d' % dftlen], unwind=dftlen + 4,
                timeout=timeout, tiers=tiers, ndebug=False,
                desc='dft_stage_fn (cr.c): one call from any stage state in ENV(dft): block bookkeeping, phase carry (at / remM), counts, memory safety; L=%d M=%d %s%s' % (L, M, 'double' if dbl else 'float', ', SIMD-style back end' if simd else ''),
                bounds='dft_length == %d, L == %d, M == %d constant; filter length 1..dft_length, phases, FIFO fill symbolic' % (dftlen, L, M),
@@ -299,6 +299,11 @@ def dft_set(tier):
     if tier == 'thorough':
         o += [dft_obl(1, 2, dbl=1, simd=1), dft_obl(3, 1, dbl=1), dft_obl(2, 3), dft_obl(8, 1), dft_obl(1, 1, dbl=1, dftlen=64), dft_obl(1, 5, dbl=1), dft_obl(3, 4, dbl=1, simd=1)]
     return o
+
+
+def dft_bigfifo_set():
+    """dft_stage_fn with an input FIFO holding up to 2^26 samples (extreme up-sampling in front): the block is still taken, no int overflow"""
+    return [dft_obl(64, 1, dbl=1, dftlen=128, bigocc=1), dft_obl(16, 1, simd=1, dftlen=64, bigocc=1), dft_obl(3, 2, bigocc=1)]
 
 
 def fifo_obls():
